@@ -210,6 +210,22 @@ func verifHarness_C08_receivers() {
 	for k := 1; k < nInc; k++ {
 		verifAction("receiver-reconnect")
 		// the new incarnation terminates its predecessor itself (TerminatePreviousLocalReceiver)
+		if k == nInc-1 && verifChoose("successor-open", 2) == 1 {
+			// ... and then fails to open its own stream: the predecessor was told to stop, the successor
+			// never came up, so every stream of the shard has ended
+			verifAction("successor-open-fails")
+			rcv := &proxyStreamReceiver{
+				logger: e.logger, shardManager: e.sm, adminClient: &rtAdminClient{src: srcs[k], fail: true},
+				localShardCount: 1, sourceShardID: srcs[k].shard,
+				targetShardID: history.ClusterShardID{ClusterID: rtTargetCluster, ShardID: srcs[k].shard.ShardID}, directionLabel: "verif",
+			}
+			go rcv.Run(channelNewShutdownOnce())
+			verifQuiesce()
+			verifQuiesce()
+			verifReach("successor-failed-to-open")
+			c08CheckEmpty(e, "successor-open-failed")
+			return
+		}
 		r, _ := e.startReceiver(srcs[k])
 		rcvs = append(rcvs, r)
 		verifQuiesce()
